@@ -591,3 +591,5 @@ def run(ctx):
     run_x64_scoped(ctx, jax, jnp, fedjax, fec, rng, int(cid.split('/')[1]))
   for cid, rng in ctx.cases('sched', 8 if ctx.quick else 28):
     run_schedule(ctx, fedjax, fec, rng, 8 if ctx.quick else 16, 2000 if ctx.quick else 20000)
+
+TECHNIQUE += '; calls of 1e3-4e3 clients; scoped jax.enable_x64; shared decorated-context activations across threads'
